@@ -23,6 +23,12 @@
 EXTENDS CryptoIdeal
 
 Curve(k) == IF k % 2 = 1 THEN "secp" ELSE "ed"
+\* Keys 10, 12, .., 24 are DEGENERATE Ed25519 keys: the public key is a small-order point of the curve, nobody holds a
+\* secret key for it, and what stands in the place of its signature (over = "forgedSame" / "forgedId": R = the same
+\* point / the neutral element, s = 0) was written down without one.  In the ideal model the key is JunkPk and the
+\* signature JunkSig: it verifies over no hash, authorizes nothing and never enters a signer set.
+Degenerate(k) == k \in 10..24
+KeyTerm(k) == IF Degenerate(k) THEN JunkPk ELSE PK(k)
 NInt(tx) == Len(tx.cv)
 
 \* hash terms -----------------------------------------------------------------
@@ -42,12 +48,12 @@ SigMsg(s, i) == CASE s.over = "own"     -> IMsg(i, s.at)
                   [] s.over = "stale"   -> IMsg(i, Bump(s.at, i))
                   [] s.over = "signed"  -> SMsg(s.at, <<>>)
                   [] OTHER              -> GMsg
-SigTerm(s, i) == IF s.junk = 1 THEN JunkSig ELSE Sign(s.k, SigMsg(s, i))
+SigTerm(s, i) == IF s.junk = 1 \/ Degenerate(s.k) THEN JunkSig ELSE Sign(s.k, SigMsg(s, i))
 NotaryMsg(n) == CASE n.over = "signed" -> SMsg(n.at, n.sv)
                   [] n.over = "intent" -> IMsg(1, n.at)
                   [] n.over = "stale"  -> SMsg(Bump(n.at, 1), n.sv)
                   [] OTHER             -> GMsg
-NotaryTerm(n) == IF n.junk = 1 THEN JunkSig ELSE Sign(n.k, NotaryMsg(n))
+NotaryTerm(n) == IF n.junk = 1 \/ Degenerate(n.k) THEN JunkSig ELSE Sign(n.k, NotaryMsg(n))
 
 \* intent signatures ------------------------------------------------------------
 \* positions whose check is not decided by the ideal model: a secp256k1 signature that is not an
@@ -84,7 +90,7 @@ ErrsK(tx, cfg, ks) ==
   \cup (IF \E i \in DOMAIN ks : \E p \in DOMAIN ks[i] : ks[i][p] = 0 THEN {"InvalidIntentSignature"} ELSE {})
   \cup (IF \E i \in DOMAIN ks : \E p, q \in DOMAIN ks[i] : p # q /\ ks[i][p] # 0 /\ ks[i][p] = ks[i][q]
         THEN {"DuplicateSigner"} ELSE {})
-  \cup (IF ~Verify(PK(tx.notary), SignedHash(tx), NotaryTerm(tx.nsig)) THEN {"InvalidNotarySignature"} ELSE {})
+  \cup (IF ~Verify(KeyTerm(tx.notary), SignedHash(tx), NotaryTerm(tx.nsig)) THEN {"InvalidNotarySignature"} ELSE {})
   \cup (IF tx.signatory /\ ~AllowDup(tx, cfg) /\ \E p \in DOMAIN ks[1] : ks[1][p] = tx.notary
         THEN {"NotaryDuplicatesSigner"} ELSE {})
 Errs(tx, cfg, ch) == ErrsK(tx, cfg, AllKeys(tx, ch))
@@ -104,7 +110,8 @@ Owned(k) == k \in 1..4
 \*     verified twice in an intent
 SoundSigners(tx, cfg) ==
   \A ch \in Choices(tx) : Errs(tx, cfg, ch) = {} =>
-     /\ Verify(PK(tx.notary), SignedHash(tx), NotaryTerm(tx.nsig))
+     /\ Verify(KeyTerm(tx.notary), SignedHash(tx), NotaryTerm(tx.nsig))
+     /\ \A i \in DOMAIN tx.sigs : \A k \in Signers(tx, ch)[i] : ~Degenerate(k)     \* a key nobody holds authorizes nothing
      /\ \A i \in DOMAIN tx.sigs : \A k \in Signers(tx, ch)[i] : Owned(k) =>
            \/ \E p \in DOMAIN tx.sigs[i] : Verify(PK(k), IntentHash(tx, i), SigTerm(tx.sigs[i][p], i))
            \/ (i = 1 /\ tx.signatory /\ k = tx.notary)
